@@ -392,3 +392,27 @@ pub fn min_non_zero_cap_mailq(size: usize) -> usize {
 pub fn string_clone_stub(_s: &String) -> String {
     String::new()
 }
+
+// ---- "the argument is never touched" as a checked obligation ---------------------------------------
+// The instance-management operations of a writer hand their DynamicData argument to exactly two entry points:
+// `KeyHolderData::from_dynamic_data` (key extraction) and `data_writer_entity::serialize` (payload). Executing
+// either is not encodable (DESIGN.md P-i), and symbolic execution cannot discharge `if !enabled { return .. }`
+// on a heap-stored writer by itself. These stubs turn "the operation returned before touching its argument"
+// into a proof obligation: reaching one of them fails the proof.
+//   #[kani::stub(crate::dcps::xtypes_glue::key_and_instance_handle::KeyHolderData::from_dynamic_data, super::support_part2::key_holder_unreachable)]
+//   #[kani::stub(crate::dcps::dcps_domain_participant::data_writer_entity::serialize, super::support_part2::serialize_unreachable)]
+pub fn key_holder_unreachable<'a>(
+    _value: &crate::xtypes::dynamic_type::DynamicData<'a>,
+    _member_list: &'a mut Vec<crate::xtypes::dynamic_type::DynamicTypeMember>,
+) -> crate::xtypes::error::XTypesResult<crate::dcps::xtypes_glue::key_and_instance_handle::KeyHolderData<'a>>
+where
+    'a: 'a,
+{
+    panic!("VERIF: the DynamicData argument was touched (key extraction reached)")
+}
+pub fn serialize_unreachable<'a>(
+    _dynamic_data: &crate::xtypes::dynamic_type::DynamicData<'a>,
+    _representation: &crate::infrastructure::qos_policy::DataRepresentationQosPolicy,
+) -> crate::infrastructure::error::DdsResult<Vec<u8>> {
+    panic!("VERIF: the DynamicData argument was touched (serializer reached)")
+}
